@@ -13,7 +13,8 @@
 //! SymmetricHashJoin (with and without declared ordering -> pruning), CrossJoin,
 //! PiecewiseMergeJoin (classic + existence; < <= > >=).
 use std::cell::RefCell;
-use std::sync::Arc;
+use std::collections::BTreeMap;
+use std::sync::{Arc, Mutex};
 use std::time::Duration;
 
 use arrow::array::{Array, ArrayRef, BooleanArray, Int32Array, RecordBatch};
@@ -620,25 +621,43 @@ struct Dims {
     all_splits: bool,
 }
 
-fn push_inputs(cases: &mut Vec<Case>, proto: &Case, d: &Dims, nkeys: usize, payload_null: bool) {
-    let vals = row_values(nkeys, payload_null);
-    let tables = enumerate::multisets(&vals, 0, d.max_rows);
-    for l in &tables {
-        for r in &tables {
-            let lsplits = if d.all_splits { enumerate::splits(l.len(), 2) } else { vec![enumerate::splits(l.len(), 2).pop().unwrap()] };
-            let rsplits = if d.all_splits { enumerate::splits(r.len(), 2) } else { vec![enumerate::splits(r.len(), 2).pop().unwrap()] };
-            for ls in &lsplits {
-                for rs in &rsplits {
-                    for bs in &d.batch_sizes {
-                        let mut c = proto.clone();
-                        c.nkeys = nkeys;
-                        c.left = l.clone();
-                        c.right = r.clone();
-                        c.lsplit = ls.clone();
-                        c.rsplit = rs.clone();
-                        c.batch_size = *bs;
-                        cases.push(c);
-                    }
+/// One family of cases: a prototype (operator, join type, ...) crossed with all inputs.
+struct Gen {
+    proto: Case,
+    dims: Dims,
+    nkeys: usize,
+    payload_null: bool,
+}
+
+fn push_inputs(gens: &mut Vec<Gen>, proto: &Case, d: &Dims, nkeys: usize, payload_null: bool) {
+    gens.push(Gen { proto: proto.clone(), dims: Dims { max_rows: d.max_rows, batch_sizes: d.batch_sizes.clone(), all_splits: d.all_splits }, nkeys, payload_null });
+}
+
+fn tables_of(g: &Gen) -> Vec<Vec<Row>> {
+    enumerate::multisets(&row_values(g.nkeys, g.payload_null), 0, g.dims.max_rows)
+}
+
+fn splits_of(d: &Dims, n: usize) -> Vec<Vec<usize>> {
+    // `splits` lists the coarsest cut first; without `all_splits` only the finest cut (<= 2 batches) is used
+    let all = enumerate::splits(n, 2);
+    if d.all_splits { all } else { vec![all.last().unwrap().clone()] }
+}
+
+/// All cases of `g` whose left input is `tables[li]`.
+fn for_each_case(g: &Gen, tables: &[Vec<Row>], li: usize, mut f: impl FnMut(&Case)) {
+    let l = &tables[li];
+    let mut c = g.proto.clone();
+    c.nkeys = g.nkeys;
+    c.left = l.clone();
+    for r in tables {
+        c.right = r.clone();
+        for ls in splits_of(&g.dims, l.len()) {
+            c.lsplit = ls;
+            for rs in splits_of(&g.dims, r.len()) {
+                c.rsplit = rs;
+                for bs in &g.dims.batch_sizes {
+                    c.batch_size = *bs;
+                    f(&c);
                 }
             }
         }
@@ -647,7 +666,7 @@ fn push_inputs(cases: &mut Vec<Case>, proto: &Case, d: &Dims, nkeys: usize, payl
 
 fn explore(ctx: &Ctx) {
     let quick = ctx.quick();
-    let d = Dims { max_rows: ctx.pick(2, 3), batch_sizes: if quick { vec![1, 8192] } else { vec![1, 2, 8192] }, all_splits: true };
+    let d = Dims { max_rows: ctx.pick(2, 3), batch_sizes: if quick { vec![1, 8192] } else { vec![1, 2, 8192] }, all_splits: !quick };
     let proto = Case {
         op: OpSpec::Cross { right_parts: 1 },
         jt: 0,
@@ -663,7 +682,7 @@ fn explore(ctx: &Ctx) {
         mem: 0,
         enforce_batch_size: false,
     };
-    let mut cases: Vec<Case> = vec![];
+    let mut cases: Vec<Gen> = vec![];
     let mut ops_equi: Vec<OpSpec> = vec![
         OpSpec::HashCollectLeft { perfect: true, right_parts: 1 },
         OpSpec::HashCollectLeft { perfect: false, right_parts: 2 },
@@ -814,8 +833,24 @@ fn explore(ctx: &Ctx) {
             }
         }
     }
-    // simplest first: fewer rows first (stable within equal size)
-    cases.sort_by_key(|c| c.left.len() + c.right.len());
+    // work items: (family, left table), smallest left tables first
+    let gens = cases;
+    let tables: Vec<Vec<Vec<Row>>> = gens.iter().map(tables_of).collect();
+    let mut items: Vec<(usize, usize)> = vec![];
+    for (gi, ts) in tables.iter().enumerate() {
+        for li in 0..ts.len() {
+            items.push((gi, li));
+        }
+    }
+    items.sort_by_key(|(gi, li)| (tables[*gi][*li].len(), *li, *gi));
+    let n_cases: u64 = gens
+        .iter()
+        .zip(&tables)
+        .map(|(g, ts)| {
+            let per_side: u64 = ts.iter().map(|t| splits_of(&g.dims, t.len()).len() as u64).sum();
+            per_side * per_side * g.dims.batch_sizes.len() as u64
+        })
+        .sum();
 
     ctx.set_extra(
         "bounds",
@@ -823,7 +858,7 @@ fn explore(ctx: &Ctx) {
             "rows_per_side": format!("all multisets of <= {} rows", d.max_rows),
             "row_domain_1key": "k1 in {NULL,1,2}, v in {1,2} (thorough adds v = NULL for <= 2 rows)",
             "row_domain_2key": "k1 in {NULL,1}, k2 in {NULL,1,2}, v = 1",
-            "batch_splits": "every cut of each side into <= 2 batches",
+            "batch_splits": if d.all_splits { "every cut of each side into <= 2 batches" } else { "finest cut of each side into <= 2 batches" },
             "batch_size": d.batch_sizes,
             "join_types": JOIN_TYPES.iter().map(|j| j.to_string()).collect::<Vec<_>>(),
             "null_equality": ["NullEqualsNothing", "NullEqualsNull"],
@@ -831,54 +866,75 @@ fn explore(ctx: &Ctx) {
             "operators": ops_equi.iter().map(|o| format!("{o:?}")).collect::<Vec<_>>(),
             "other_operators": "SymmetricHash{sorted} | HashNullAware x3 | NestedLoop{1,2 right partitions} | Cross{1,2} | PiecewiseMerge{< <= > >=}x{1,2 streamed partitions}",
             "memory_budgets(pool,bytes)": budgets,
-            "cases": cases.len(),
+            "cases": n_cases,
         }),
     );
     ctx.assume("null-aware anti joins are checked without residual filter and with NullEqualsNothing only (NOT IN semantics; the property does not define the other combinations)");
     ctx.assume("a run that ends in ResourcesExhausted under a finite memory budget is counted, not compared");
 
-    cases.par_iter().for_each(|c| {
-        if ctx.should_stop() {
-            return;
-        }
-        ctx.eval();
-        let fam = c.op.family();
-        match mc_core::catch(|| run_case(c)).unwrap_or_else(Err) {
-            Ok(st) => {
-                if let Some(why) = &st.rejected {
-                    ctx.count(&format!("rejected[{fam} {}]", JOIN_TYPES[c.jt]), 1);
-                    let _ = why;
-                    return;
+    let found: Mutex<BTreeMap<String, ((usize, usize, String), String, Case)>> = Mutex::new(BTreeMap::new());
+    items.par_iter().for_each(|(gi, li)| {
+        for_each_case(&gens[*gi], &tables[*gi], *li, |c| {
+            if ctx.out_of_time() {
+                return;
+            }
+            ctx.eval();
+            let fam = c.op.family();
+            match mc_core::catch(|| run_case(c)).unwrap_or_else(Err) {
+                Ok(st) => {
+                    if st.rejected.is_some() {
+                        ctx.count(&format!("rejected[{fam} {}]", JOIN_TYPES[c.jt]), 1);
+                        return;
+                    }
+                    if st.resources_exhausted {
+                        ctx.count(&format!("resources_exhausted[{fam} pool={} mem={}]", c.pool, c.mem), 1);
+                        return;
+                    }
+                    ctx.count(&format!("compared[{fam}]"), 1);
+                    if c.pool != 0 {
+                        let bucket = match st.spills {
+                            0 => "0",
+                            1 => "1",
+                            _ => ">=2",
+                        };
+                        ctx.count(&format!("budget_runs[{fam} pool={} mem={}] spills={bucket}", c.pool, c.mem), 1);
+                    }
+                    if st.array_maps > 0 {
+                        ctx.count(&format!("array_map_used[{fam}]"), 1);
+                    }
+                    if st.nontrivial {
+                        ctx.nontrivial(&(fam, c.jt, c.null_eq, c.filter, c.nkeys, &c.left, &c.right));
+                        if c.left.len() + c.right.len() >= 4 && c.lsplit.len() == 2 && c.filter == 1 && c.jt >= 3 && ctx.want_sample() {
+                            ctx.sample(json!({"case": c, "join_type": JOIN_TYPES[c.jt].to_string(), "output_rows": st.out_rows}));
+                        }
+                    }
                 }
-                if st.resources_exhausted {
-                    ctx.count(&format!("resources_exhausted[{fam} pool={} mem={}]", c.pool, c.mem), 1);
-                    return;
-                }
-                ctx.count(&format!("compared[{fam}]"), 1);
-                if c.pool != 0 {
-                    let bucket = match st.spills {
-                        0 => "0",
-                        1 => "1",
-                        _ => ">=2",
+                Err(what) => {
+                    // one finding per (operator family, join type, filter class, NULL equality, budgeted?); keep the smallest case
+                    let fclass = match c.filter {
+                        0 => "no-filter",
+                        3 => "column-free-filter",
+                        _ => "column-filter",
                     };
-                    ctx.count(&format!("budget_runs[{fam} pool={} mem={}] spills={bucket}", c.pool, c.mem), 1);
-                }
-                if st.array_maps > 0 {
-                    ctx.count(&format!("array_map_used[{fam}]"), 1);
-                }
-                if st.nontrivial {
-                    ctx.nontrivial(&(fam, c.jt, c.null_eq, c.filter, c.nkeys, &c.left, &c.right));
-                    if c.left.len() + c.right.len() >= 4 && c.lsplit.len() == 2 && c.filter == 1 && c.jt >= 3 && ctx.want_sample() {
-                        ctx.sample(json!({"case": c, "join_type": JOIN_TYPES[c.jt].to_string(), "output_rows": st.out_rows}));
+                    let key = format!(
+                        "{fam}|{}|{fclass}|{}{}",
+                        JOIN_TYPES[c.jt],
+                        if c.null_eq { "NullEqualsNull" } else { "NullEqualsNothing" },
+                        if c.pool != 0 { "|memory-budget" } else { "" }
+                    );
+                    let rank = (c.left.len() + c.right.len(), c.lsplit.len() + c.rsplit.len(), serde_json::to_string(c).unwrap());
+                    ctx.count("violating_cases", 1);
+                    let mut f = found.lock().unwrap();
+                    if f.get(&key).map(|old: &(_, String, Case)| old.0 > rank).unwrap_or(true) {
+                        f.insert(key, (rank, what, c.clone()));
                     }
                 }
             }
-            Err(what) => {
-                let key = serde_json::to_string(c).unwrap();
-                ctx.violation(key, what, serde_json::to_value(c).unwrap());
-            }
-        }
+        });
     });
+    for (key, (_, what, case)) in found.into_inner().unwrap() {
+        ctx.violation(key, what, serde_json::to_value(&case).unwrap());
+    }
 }
 
 fn replay(v: &Value) -> Result<(), String> {
